@@ -21,12 +21,15 @@ from concurrent.futures import ThreadPoolExecutor
 import hv
 
 KNOWN_KEY = "unuse-identity-is-code-pointer"
+CTX_MARK = {"": None, "cancel": 9001, "deadline": 9002}
 sys.setrecursionlimit(100000)
 
 LAYERS = ("CI", "CO", "SO", "SI")
-INV_KINDS = {"fi", "ci", "mi", "pi", "pik", "t", "tk", "ti", "to"}
-IO_KINDS = {"fo", "co", "mo", "po", "pok", "t", "tk", "ti", "to"}
-MODEL_KIND = {"fi": "fi", "ci": "fi", "mi": "fi", "fo": "fo", "co": "fo", "mo": "fo",
+INV_KINDS = {"bi", "fi", "ci", "mi", "pi", "pik", "t", "tk", "ti", "to"}
+IO_KINDS = {"bo", "fo", "co", "mo", "po", "pok", "t", "tk", "ti", "to"}
+MODEL_REP = 2
+BALLAST = 50000        # length of the run of cheap handlers that makes a rebuild take milliseconds
+MODEL_KIND = {"bi": "fi", "bo": "fo","fi": "fi", "ci": "fi", "mi": "fi", "fo": "fo", "co": "fo", "mo": "fo",
               "t": "t", "tk": "t", "ti": "ti", "to": "to", "pi": "pi", "pik": "pi",
               "po": "po", "pok": "po", "bad": "bad"}
 K_KINDS = {"fi", "fo", "tk", "pik", "pok"}     # kinds whose concrete value is chosen by k
@@ -37,6 +40,8 @@ def code_class(e, side):
     k = e["kind"]
     if k in ("fi", "fo"):
         return (k, e.get("k", 0))
+    if k in ("bi", "bo"):
+        return (k,)
     if k in ("ci", "co", "mi", "mo"):
         return (k,)
     if k in ("t", "tk", "ti", "to"):
@@ -114,19 +119,24 @@ def gen_pool(rng, n, guard, behaviours, with_bad):
     return pool
 
 
-def gen_ops(rng, pool, n_ops, nodes, allow_bad):
+def gen_ops(rng, pool, n_ops, nodes, allow_bad, ctxp=0.0):
     valid = [i for i, e in enumerate(pool) if e["kind"] != "bad"]
     ops = []
     for _ in range(n_ops):
         r = rng.random()
         if r < 0.3:
-            ops.append({"op": "C", "toks": [rng.randrange(10) for _ in range(rng.choice([0, 1, 1, 2]))]})
+            op = {"op": "C", "toks": [rng.randrange(10) for _ in range(rng.choice([0, 1, 1, 2]))]}
+            if rng.random() < ctxp:
+                op["ctx"] = rng.choice(["cancel", "deadline"])
+            ops.append(op)
             continue
         nargs = rng.choice([1, 1, 1, 2, 2, 3, 0])
         src = list(range(len(pool))) if (allow_bad and rng.random() < 0.08) else valid
         ix = [rng.choice(src) for _ in range(nargs)]
         ops.append({"op": "U" if r < 0.7 else "X", "node": rng.choice(nodes), "ix": ix})
     ops.append({"op": "C", "toks": [rng.randrange(10)]})
+    if ctxp:
+        ops.append({"op": "C", "toks": [rng.randrange(10)], "ctx": rng.choice(["cancel", "deadline"])})
     return ops
 
 
@@ -151,6 +161,69 @@ def gen_random(ctx, cases, n, label, guard, behaviours, mids):
                     pool[a]["mids"] = ms
         ops = gen_ops(rng, pool, rng.randint(3, 12 if ctx.tier == "quick" else 30), "cs", allow_bad=True)
         cases.append({"id": len(cases) + 1, "mode": "seq", "flavour": label, "pool": pool, "ops": ops})
+
+
+def gen_ctx(ctx, cases, n):
+    """Calls whose context is already cancelled / past its deadline, and handlers that hand a
+    cancelled context to next.  No in-flight Use/Unuse here: the service side of a call the
+    transport gave up on runs detached."""
+    rng = ctx.rng
+    behs = ["P", "P", "P", "K", "K", "S", "E", "A", "F"]
+    # systematic: one handler per layer, each in turn cancelling the context for the rest
+    base = [E("fi", 0), E("fo", 0), E("fi", 1), E("fo", 1)]
+    use = [{"op": "U", "node": "c", "ix": [0, 1]}, {"op": "U", "node": "s", "ix": [2, 3]}]
+    for who in (None, 0, 1, 2, 3):
+        for b in ("K", "S", "A"):
+            pool = [dict(e) for e in base]
+            if who is not None:
+                pool[who]["beh"] = b
+            for cm in ("", "cancel", "deadline"):
+                call = {"op": "C", "toks": [4]}
+                if cm:
+                    call["ctx"] = cm
+                cases.append({"id": len(cases) + 1, "mode": "seq", "flavour": "ctx/systematic", "pool": pool,
+                              "ops": use + [call, {"op": "C", "toks": [5]}]})
+    for _ in range(n):
+        guard = rng.random() < 0.7
+        pool = gen_pool(rng, rng.randint(2, 6), guard, behs, with_bad=False)
+        ops = gen_ops(rng, pool, rng.randint(3, 10), "cs", allow_bad=False, ctxp=0.6)
+        cases.append({"id": len(cases) + 1, "mode": "seq", "flavour": "ctx/random", "pool": pool, "ops": ops})
+
+
+MULTI_TARGETS = [("c", "I"), ("c", "O"), ("s", "I"), ("s", "O")]
+
+
+def gen_multi(ctx, n, ballast):
+    """2-4 mutators at once on ONE manager.  Mutator 0 removes a long run of ballast handlers
+    (a big list shrinking to a small one), the others Use/Unuse handlers of their own (distinct
+    code pointers), so whatever the interleaving the final chain is known per owner
+    (C15_disjoint_mutators_independent)."""
+    rng = ctx.rng
+    out = []
+    for i in range(n):
+        node, side = MULTI_TARGETS[i % len(MULTI_TARGETS)]
+        f = "fi" if side == "I" else "fo"
+        pool = [E("bi" if side == "I" else "bo")] + [E(f, k) for k in range(4)]
+        nm = rng.choice([2, 3, 3, 4])
+        marks = [1, 2, 3, 4]
+        rng.shuffle(marks)
+        owners = [[0]] + [[] for _ in range(nm - 1)]
+        for j, m in enumerate(marks):
+            owners[1 + j % (nm - 1)].append(m)
+        rounds = []
+        for r in range(rng.choice([4, 5, 6])):
+            setup = [{"op": "U", "node": node, "ix": [0], "rep": ballast}]
+            muts = [[{"op": "X", "node": node, "ix": [0]}]]
+            for own in owners[1:]:
+                sc = [{"op": "U", "node": node, "ix": [rng.choice(own)]}]
+                for _ in range(rng.choice([0, 0, 1, 2])):
+                    sc.append({"op": rng.choice("UUX"), "node": node,
+                               "ix": [rng.choice(own) for _ in range(rng.choice([1, 1, 2]))]})
+                muts.append(sc)
+            rounds.append({"setup": setup, "mutators": muts})
+        out.append({"id": i + 1, "mode": "multi", "flavour": "concurrent/multi-mutator", "pool": pool,
+                    "target": node.upper() + side, "owners": owners, "rounds": rounds})
+    return out
 
 
 def gen_conc(ctx, n):
@@ -180,7 +253,7 @@ def rs(x):
     return ("ok" + fmt(x[1])) if x[0] == "ok" else "err(%d)" % x[1]
 
 
-def simulate(case, key):
+def simulate(case, key, nocut=False, cuts=None):
     """The property text on plain lists.  key(side, pool index) = the identity Unuse goes by.
     Returns (outs, final) in the executor's vocabulary."""
     pool = case["pool"]
@@ -203,23 +276,33 @@ def simulate(case, key):
             st[LO] = [h for h in st[LO] if key("O", h) not in ko]
         return "ok"
 
-    def call(toks, probe=False):
+    def call(toks, ctx=None, probe=False):
+        """ctx: None live, 9001 cancelled, 9002 deadline passed.  The property does not mention the
+        context: every installed handler runs, in order, whatever its state.  Only the transport
+        (not a plugin) gives up on a done context: it answers ctx.Err() instead of the response."""
         ev = []
 
-        def level(li, req):
-            if li == 4:
-                ev.append("*" + fmt(req))
-                return ("ok", req + [99])
-            return run(LAYERS[li], list(st[LAYERS[li]]), 0, li, req)   # the list installed NOW
+        def shown(req, ctx):
+            return fmt(([ctx] if ctx else []) + req)
 
-        def run(L, chain, pos, li, req):
+        def level(li, req, ctx):
+            if li == 4:
+                ev.append("*" + shown(req, ctx))
+                return ("ok", req + [99])
+            if li == 2 and ctx and not nocut:
+                if cuts is not None:
+                    cuts.add(len(outs))
+                return ("err", ctx)          # Client.Transport -> transport: select on ctx.Done()
+            return run(LAYERS[li], list(st[LAYERS[li]]), 0, li, req, ctx)   # the list installed NOW
+
+        def run(L, chain, pos, li, req, ctx):
             if pos == len(chain):
-                return level(li + 1, req)
+                return level(li + 1, req, ctx)
             h = chain[pos]
             e = pool[h]
             hid = h + 1
             lab = "%s.%d" % (L, hid)
-            ev.append("+" + lab + fmt(req))
+            ev.append("+" + lab + shown(req, ctx))
             beh = "P" if probe else e.get("beh", "P")
             if not probe:
                 for m in e.get("mids", ()):
@@ -229,24 +312,26 @@ def simulate(case, key):
             elif beh == "E":
                 x = ("err", hid)
             elif beh == "A":
-                x = run(L, chain, pos + 1, li, req + [hid])
+                x = run(L, chain, pos + 1, li, req + [hid], ctx)
                 if x[0] == "ok":
                     x = ("ok", x[1] + [hid + 100])
             elif beh == "F":
-                run(L, chain, pos + 1, li, req)
+                run(L, chain, pos + 1, li, req, ctx)
                 x = ("err", hid)
+            elif beh == "K":
+                x = run(L, chain, pos + 1, li, req, ctx or 9001)   # next gets a cancelled context
             else:
-                x = run(L, chain, pos + 1, li, req)
+                x = run(L, chain, pos + 1, li, req, ctx)
             ev.append("-" + lab + "=" + rs(x))
             return x
 
-        x = level(0, list(toks))
+        x = level(0, list(toks), ctx)
         return ";".join(ev), rs(x)
 
     outs = []
     for op in case.get("ops", ()):
         if op["op"] == "C":
-            t, r = call(op["toks"])
+            t, r = call(op["toks"], CTX_MARK.get(op.get("ctx") or ""))
             outs.append("call:" + t + "=>" + r)
         else:
             outs.append(apply(op))
@@ -265,7 +350,8 @@ def model_line(case, obs, mode="SEQ", ops=None):
         return codes.setdefault(p, len(codes) + 1)
 
     def mop(m):
-        return [m["op"], m["node"], str(len(m["ix"]))] + [str(i) for i in m["ix"]]
+        ix = list(m["ix"]) * min(m.get("rep") or 1, MODEL_REP)     # long ballast runs are scaled down
+        return [m["op"], m["node"], str(len(ix))] + [str(i) for i in ix]
 
     parts = [mode, "P", str(len(case["pool"]))]
     for i, e in enumerate(case["pool"]):
@@ -278,7 +364,8 @@ def model_line(case, obs, mode="SEQ", ops=None):
     parts += ["O", str(len(ops))]
     for op in ops:
         if op["op"] == "C":
-            parts += ["C", str(len(op["toks"]))] + [str(t) for t in op["toks"]]
+            toks = ([CTX_MARK[op["ctx"]]] if op.get("ctx") else []) + list(op["toks"])
+            parts += ["C", str(len(toks))] + [str(t) for t in toks]
         else:
             parts += mop(op)
     return " ".join(parts)
@@ -319,6 +406,20 @@ def shared_code(case, obs):
     return False
 
 
+def project(outs, cuts):
+    """Calls (by op index) whose done context reached the transport: it gives up at once while
+    the service side keeps working, detached; those events land in the trace at arbitrary places
+    and are not part of what the caller's chain did.  Drop service-side and core events of such
+    calls.  Which calls these are is decided by the property oracle, not by the observation."""
+    res = list(outs)
+    for k in cuts:
+        if k < len(res) and res[k].startswith("call:"):
+            body, _, r = res[k][5:].rpartition("=>")
+            keep = [e for e in body.split(";") if e and not (e[0] == "*" or e[1:2] == "S")]
+            res[k] = "call:" + ";".join(keep) + "=>" + r
+    return res
+
+
 def first_diff(a_outs, a_final, b_outs, b_final):
     for k, (x, y) in enumerate(zip(a_outs, b_outs)):
         if x != y:
@@ -334,7 +435,7 @@ def first_diff(a_outs, a_final, b_outs, b_final):
 def describe(case):
     def o(op):
         if op["op"] == "C":
-            return "Call%s" % fmt(op["toks"])
+            return "Call%s%s" % (fmt(op["toks"]), {"cancel": "[ctx cancelled]", "deadline": "[ctx deadline passed]"}.get(op.get("ctx") or "", ""))
         return "%s.%s(%s)" % ("client" if op["node"] == "c" else "service",
                               "Use" if op["op"] == "U" else "Unuse", ",".join("h%d" % (i + 1) for i in op["ix"]))
     pool = ",".join("h%d:%s%s" % (i + 1, e["kind"], "" if e.get("beh", "P") == "P" else "/" + e["beh"])
@@ -352,7 +453,7 @@ def seq_worker(rng_):
     lo, hi = rng_
     cases = _CASES[lo:hi]
     S = {"n": 0, "digests": set(), "by_flavour": {}, "outcomes": {}, "agree": 0, "pattern_mismatch": 0,
-         "known_n": 0, "known": [], "other_n": 0, "other": [], "corr_n": 0, "corr": [], "reports": [],
+         "inconclusive": 0, "known_n": 0, "known": [], "other_n": 0, "other": [], "corr_n": 0, "corr": [], "reports": [],
          "samples": []}
     rc, obs, err = hv.run_harness("c15", cases, extra_env={"GOMAXPROCS": "2"})
     byid = {o["id"]: o for o in obs}
@@ -366,7 +467,10 @@ def seq_worker(rng_):
     ident = lambda side, i: i
     for c, ml in zip(cases, mouts):
         o = byid[c["id"]]
-        i_outs, i_final = o.get("outs", []), o.get("final", "")
+        cuts = set()
+        p_outs, p_final = simulate(c, ident, cuts=cuts)
+        raw_outs = o.get("outs", [])
+        i_outs, i_final = (project(raw_outs, cuts) if cuts else raw_outs), o.get("final", "")
         seg = ml.split(" || ")
         if len(seg) != 4:
             S["reports"].append(("model-error", "model runner failed: " + ml[:200], {"case": c, "failing_input": False}))
@@ -399,14 +503,39 @@ def seq_worker(rng_):
             S["reports"].append(("model-vs-spec", "extracted model and list specification disagree under the guard "
                                  "(contradicts C15_refines_spec_partial)", {"case": c, "model": ml, "failing_input": False}))
         # the property text, handler identity = pool id
-        p_outs, p_final = simulate(c, ident)
+        key_code = lambda side, i: (o["ptr_i"] if side == "I" else o["ptr_o"])[i]
+
+        def reconcile(proj_outs, exp_outs, cutset, key):
+            """select{ctx.Done(), response} in the transport: with a done context the response can
+            (rarely) win the race; such a call is accepted as delivered, and counted."""
+            alt = None
+            for k in sorted(cutset):
+                if k < len(proj_outs) and k < len(exp_outs) and proj_outs[k] != exp_outs[k]:
+                    if alt is None:
+                        alt, _ = simulate(c, key, nocut=True)
+                    if raw_outs[k] == alt[k]:
+                        proj_outs[k] = exp_outs[k] = raw_outs[k]
+                        S["inconclusive"] += 1
+
+        i_outs = list(i_outs)
+        reconcile(i_outs, p_outs, cuts, ident)
         pk, pwhy = first_diff(i_outs, i_final, p_outs, p_final)
-        mk, mwhy = first_diff(i_outs, i_final, m_outs, m_final)
+        # the model goes by code pointer: which calls reach the transport with a done context can
+        # differ from the identity oracle's when handlers share code
+        ic_outs, c_outs, c_final, cc = i_outs, None, None, cuts
+        if shared and (cuts or pk is not None):
+            cc = set()
+            c_outs, c_final = simulate(c, key_code, cuts=cc)
+            ic_outs = project(raw_outs, cc) if cc else list(raw_outs)
+            reconcile(ic_outs, c_outs, cc, key_code)
+        m_cmp = list(ic_outs)
+        reconcile(m_cmp, m_outs, cc, key_code)
+        mk, mwhy = first_diff(m_cmp, i_final, m_outs, m_final)
         if pk is not None:
             # does the behaviour equal "Unuse goes by code pointer", and is that the whole difference?
-            key_code = lambda side, i: (o["ptr_i"] if side == "I" else o["ptr_o"])[i]
-            c_outs, c_final = simulate(c, key_code)
-            ck, _ = first_diff(i_outs, i_final, c_outs, c_final)
+            if c_outs is None:
+                c_outs, c_final = simulate(c, key_code)
+            ck, _ = first_diff(ic_outs, i_final, c_outs, c_final)
             if shared and ck is None:
                 S["known_n"] += 1
                 S["known"].append((c, o, pwhy))
@@ -452,6 +581,7 @@ def check_seq(ctx, cases):
             ctx.bump("observed_outcomes", k, v)
         ctx.bump("traces_validated_against_impl", None, S["agree"])
         ctx.bump("identity_assumption_mismatches", None, S["pattern_mismatch"])
+        ctx.bump("inconclusive_transport_race_calls", None, S["inconclusive"])
         for key, what, rep in S["reports"]:
             ctx.report(key, what, rep)
         for smp in S["samples"]:
@@ -605,6 +735,79 @@ def check_conc(ctx, cases, race):
             ctx.bump("conc_cases_valid")
 
 
+def check_multi(ctx, cases, race=False):
+    """Several mutators at once on one manager.  What is validated: after ALL mutators have
+    returned, a call runs exactly the onion of the final list -- the installed closure is the chain
+    of the CURRENT list after every schedule (C15_concurrent_mutators_coherent / C15_never_corrupts)
+    -- and each owner's handlers are installed as if it had run alone
+    (C15_disjoint_mutators_independent)."""
+    if not cases:
+        return
+    rc, obs, err = run_parallel_harness(cases, race=race, workers=3)
+    byid = {o["id"]: o for o in obs}
+    if race and "DATA RACE" in err:
+        ctx.report("conc:data-race", "the race detector fired while several mutators ran at once: " + err[:600],
+                   {"stderr": err[:4000], "failing_input": True})
+    if rc != 0 or len(byid) != len(cases):
+        first = next((c for c in cases if c["id"] not in byid), None)
+        ctx.report("conc:crash", "executor died (rc=%d) while several mutators ran at once: %s" % (rc, err[-600:]),
+                   {"case": first, "stderr": err[-3000:], "failing_input": True})
+        cases = [c for c in cases if c["id"] in byid]
+    lines, where = [], []
+    for c in cases:
+        o = byid[c["id"]]
+        cum = []
+        for j, rd in enumerate(c["rounds"]):
+            cum = cum + rd["setup"] + [op for sc in rd["mutators"] for op in sc]   # one linearisation
+            lines.append(model_line(c, o, "CONC", cum))
+            where.append((c, j))
+    mo = hv.run_model("c15", lines)
+    failed = set()
+    for (c, j), ml in zip(where, mo):
+        o = byid[c["id"]]
+        if c["id"] in failed or j >= len(o.get("rounds", [])):
+            continue
+        ro = o["rounds"][j]
+        want = parse_states(ml)[-1]
+        got = chains_of_trace(ro["trace"])
+        L = c["target"]
+        rep_ = c["rounds"][j]["setup"][0]["rep"]
+        bad = None
+        if o.get("panics"):
+            bad = "Use/Unuse panicked: %s" % o["panics"][:3]
+        for d in [{"trace": ro["trace"], "res": ro["res"]}] + ro.get("during", []):
+            if (d["trace"], d["res"]) != onion_string(chains_of_trace(d["trace"]), [7]):
+                bad = bad or "a call's trace is not an onion: %s => %s" % (d["trace"][:300], d["res"])
+        want_ballast = want[L].count(1) // min(rep_, MODEL_REP) * rep_
+        if not bad and ro["ballast"] != want_ballast:
+            bad = ("round %d: after every mutator had returned (Unuse of the %d ballast handlers included) a call "
+                   "still went through %d ballast handlers, the final list has %d: a stale chain is installed"
+                   % (j, rep_, ro["ballast"], want_ballast))
+        for own in c["owners"][1:]:
+            ids = {m + 1 for m in own}
+            a = [h for h in got[L] if h in ids]
+            b = [h for h in want[L] if h in ids]
+            if not bad and a != b:
+                bad = ("round %d: the handlers %s of one mutator are installed as %s; its own operations give %s "
+                       "whatever the other mutators did" % (j, sorted(ids), a, b))
+        other_layers = [X for X in LAYERS if X != L and got[X]]
+        if not bad and (other_layers or sorted(got[L]) != sorted(h for h in want[L] if h != 1)):
+            bad = "round %d: installed %s, final list %s" % (j, got, want)
+        ctx.count_case("multi%d/%d" % (c["id"], j) + json.dumps(c["rounds"][j]), nontrivial=True)
+        ctx.bump("by_flavour", c["flavour"])
+        ctx.bump("multi_mutator_rounds")
+        if bad:
+            failed.add(c["id"])
+            ctx.report("conc:multi-mutator-final-chain", "%d mutators at once on manager %s: %s"
+                       % (len(c["rounds"][j]["mutators"]), L, bad),
+                       {"case": c, "observed": {"rounds": [{k: v for k, v in r.items() if k != "during"}
+                                                           for r in o["rounds"]]},
+                        "round": j, "failing_input": True,
+                        "theorems": "C15_concurrent_mutators_coherent, C15_disjoint_mutators_independent"})
+        else:
+            ctx.bump("multi_mutator_rounds_valid")
+
+
 # --------------------------------------------------------------------------- entry points
 
 def run(ctx):
@@ -639,16 +842,20 @@ def run(ctx):
     gen_random(ctx, cases, 1500 if quick else 30000, "random/guarded/behaviours+in-flight", True, beh_all, True)
     gen_random(ctx, cases, 1500 if quick else 30000, "random/any-shape/behaviours+in-flight", False, beh_all, True)
     gen_random(ctx, cases, 1000 if quick else 20000, "random/any-shape/pass-through", False, ["P"], False)
+    gen_ctx(ctx, cases, 1500 if quick else 30000)
     lap("generate")
     nk, no, nc = check_seq(ctx, cases)
     lap("sequential")
     conc = gen_conc(ctx, 40 if quick else 400)
     check_conc(ctx, conc, race=False)
     lap("concurrent")
+    check_multi(ctx, gen_multi(ctx, 12 if quick else 48, BALLAST))
+    lap("multi-mutator")
     if not quick:
         try:
             hv.build_harness("c15", race=True)
             check_conc(ctx, gen_conc(ctx, 60), race=True)
+            check_multi(ctx, gen_multi(ctx, 8, 5000), race=True)
             ctx.note("race_build", "run")
         except hv.EnvError as e:
             ctx.note("race_build", "unavailable: " + str(e)[:200])
@@ -660,8 +867,10 @@ def run(ctx):
              "service, distinct functions, closures of one literal, method values, two-sided and one-sided struct "
              "plugins); seeded random histories (multi-argument Use/Unuse on client and service, invalid values, "
              "short-circuit / alter / error behaviours, Use/Unuse issued by handlers while a call is inside them); "
-             "concurrent mutators vs callers. non-trivial = some call ran >= 2 handlers or >= 2 handlers stayed installed; "
-             "distinct by (pool, ops)" % (maxlen, len(EXHAUSTIVE_FLAVOURS)))
+             "calls with an already cancelled / expired context and handlers that cancel the context for next; "
+             "concurrent mutators vs callers; 2-4 simultaneous mutators on one manager over %d ballast handlers, "
+             "final chain checked after each round. non-trivial = some call ran >= 2 handlers or >= 2 handlers stayed installed; "
+             "distinct by (pool, ops)" % (maxlen, len(EXHAUSTIVE_FLAVOURS), BALLAST))
     ctx.note("observation", "a call reads the four managers at four different moments; a Use/Unuse made while a call is "
              "between two of them is seen by the rest of that call (model: C15_two_sided_half_seen_witness; exercised "
              "deterministically by the in-flight cases)")
@@ -679,14 +888,16 @@ def replay(ctx, path):
     o = obs[0]
     print("case:", describe(c))
     print("observed:", json.dumps(o))
-    if c.get("mode") == "conc":
-        check_conc(ctx, [c], race=False)
+    if c.get("mode") in ("conc", "multi"):
+        (check_conc if c["mode"] == "conc" else check_multi)(ctx, [c], race=False)
         for k, what, _ in ctx.violations:
             print("violation:", k, what)
         return 1 if ctx.violations else 0
     print("model   :", hv.run_model("c15", [model_line(c, o)])[0])
     p_outs, p_final = simulate(c, lambda side, i: i)
     print("property:", json.dumps({"outs": p_outs, "final": p_final}))
-    k, why = first_diff(o.get("outs", []), o.get("final", ""), p_outs, p_final)
+    cuts = set()
+    simulate(c, lambda side, i: i, cuts=cuts)
+    k, why = first_diff(project(o.get("outs", []), cuts), o.get("final", ""), p_outs, p_final)
     print("property oracle:", why)
     return 1 if k else 0
